@@ -38,6 +38,10 @@ type c10Op struct {
 	Int []byte `json:"knas_int,omitempty"`
 	EA  uint8  `json:"ea,omitempty"`
 	IA  uint8  `json:"ia,omitempty"`
+	// Retx (header types 3/4 only, effective when the previous message also had such a header type): the AMF
+	// retransmits the first message of the new context (T3560 expired) - same header type, but the downlink NAS
+	// COUNT is not reset a second time: it is incremented as for every retransmitted message (TS 24.501 4.4.3.1)
+	Retx bool `json:"retransmission,omitempty"`
 }
 
 type c10Case struct {
@@ -85,7 +89,10 @@ func genC10Op(skipHeavy bool) func(t *rapid.T) c10Op {
 				op.Skip = genSkip(t, "skip")
 			}
 		}
-		if op.HT >= 3 && rapid.Bool().Draw(t, "newkeys") {
+		if op.HT >= 3 && rapid.IntRange(0, 2).Draw(t, "retx") == 1 {
+			op.Retx = true
+		}
+		if op.HT >= 3 && !op.Retx && rapid.Bool().Draw(t, "newkeys") {
 			op.Enc, op.Int = gen128(t, "enc"), gen128(t, "int")
 			op.EA, op.IA = uint8(rapid.IntRange(0, 2).Draw(t, "ea")), uint8(rapid.IntRange(1, 2).Draw(t, "ia"))
 		}
@@ -223,6 +230,7 @@ func c10Oracle0(c c10Case) (v ev.Verdict) {
 		next = c.Last + 1
 	}
 	wraps, skipAcrossWrap, ht13cipher := 0, false, false
+	prevNew := false // the previous protected message carried a "new security context" header type
 	cls[fmt.Sprintf("alg NIA%d/NEA%d", c.IA, c.EA)] = true
 
 	for i, op := range c.Ops {
@@ -251,7 +259,10 @@ func c10Oracle0(c c10Case) (v ev.Verdict) {
 		if !protected {
 			pdu = append([]byte{}, plain...)
 		} else {
-			if refsec.NewContext(op.HT) {
+			if refsec.NewContext(op.HT) && op.Retx && prevNew && next >= 1 && next <= 4 {
+				used = next
+				cls["new-context header retransmitted (COUNT not reset again)"] = true
+			} else if refsec.NewContext(op.HT) {
 				if op.Enc != nil {
 					if len(op.Enc) != 16 || len(op.Int) != 16 || op.EA > 2 || op.IA < 1 || op.IA > 2 {
 						v.Skip = true
@@ -403,6 +414,7 @@ func c10Oracle0(c c10Case) (v ev.Verdict) {
 		}
 		if protected {
 			last, next = used, used+1
+			prevNew = refsec.NewContext(op.HT)
 		}
 	}
 	if wraps > 0 {
